@@ -17,7 +17,8 @@ type rxRecord struct {
 }
 
 var c02ReplayKinds = []string{"verbatim", "other-body", "other-recipient", "other-caller", "other-v-encoding", "other-submitter",
-	"after-pause-unpause", "after-attester-rotation", "after-unlink-relink", "after-restart", "after-export-import", "as-non-module", "as-module"}
+	"after-pause-unpause", "after-attester-rotation", "after-unlink-relink", "after-restart", "after-export-import", "as-non-module", "as-module",
+	"after-messenger-remove-readd", "after-admin-churn"}
 
 // runC02 drives replay-heavy histories; the exactly-once verdicts come from the engine's
 // outcome oracle (nonce-used => MustFail), the state tap (used set == model), the
@@ -86,6 +87,12 @@ func runC02(rc *RunCtx) {
 			for k := 0; k < 3; k++ {
 				rec := done[r.Intn(len(done))]
 				kind := c02ReplayKinds[(i*3+k)%len(c02ReplayKinds)]
+				if kind == "after-export-import" {
+					kind = "verbatim" // scheduled separately below (it is expensive)
+				}
+				if i%40 == 39 && k == 0 {
+					kind = "after-export-import"
+				}
 				in2 := rec.in
 				from2 := rec.from
 				vs := 0
@@ -129,13 +136,25 @@ func runC02(rc *RunCtx) {
 				case "after-unlink-relink":
 					admin(&ct.MsgUnlinkTokenPair{From: Acct(TCIx), RemoteDomain: 0, RemoteToken: Token(0), LocalToken: "uusdc"})
 					admin(&ct.MsgLinkTokenPair{From: Acct(TCIx), RemoteDomain: 0, RemoteToken: Token(0), LocalToken: "uusdc"})
+				case "after-messenger-remove-readd":
+					d := in2.Src
+					if addr, ok := e.M.Messengers[d]; ok {
+						admin(&ct.MsgRemoveRemoteTokenMessenger{From: Acct(OwnerIx), DomainId: d})
+						admin(&ct.MsgAddRemoteTokenMessenger{From: Acct(OwnerIx), DomainId: d, Address: addr})
+					}
+				case "after-admin-churn":
+					// every kind of administrative write and its inverse between the receive and its replay
+					admin(&ct.MsgUpdateMaxMessageBodySize{From: Acct(OwnerIx), MessageSize: 9000})
+					admin(&ct.MsgUpdateMaxMessageBodySize{From: Acct(OwnerIx), MessageSize: 8000})
+					admin(&ct.MsgSetMaxBurnAmountPerMessage{From: Acct(TCIx), LocalToken: "uusdc", Amount: mkInt(Max256)})
+					admin(&ct.MsgPauseBurningAndMinting{From: Acct(PauserIx)})
+					admin(&ct.MsgUnpauseBurningAndMinting{From: Acct(PauserIx)})
+					admin(&ct.MsgUpdateSignatureThreshold{From: Acct(AMIx), Amount: e.M.Threshold%2 + 1})
+					admin(&ct.MsgLinkTokenPair{From: Acct(TCIx), RemoteDomain: 9, RemoteToken: Token(5), LocalToken: "uusdc"})
+					admin(&ct.MsgUnlinkTokenPair{From: Acct(TCIx), RemoteDomain: 9, RemoteToken: Token(5), LocalToken: "uusdc"})
 				case "after-restart":
 					e.Restart()
 				case "after-export-import":
-					if i%20 != 0 {
-						kind = "verbatim"
-						break
-					}
 					if _, _, _, err := e.ExportImport(); err != nil {
 						rc.Cov.Inconclusive("export/import: " + err.Error())
 					}
